@@ -104,6 +104,12 @@ CHECKS["C13"] = (
     "Cache state is read/restored through name-mangled attributes from the harness; docstring types are C14's; markup outside the token alphabet is not covered.",
     "6/C13",
 )
+CHECKS["C16"] = (
+    "explicit-state breadth-first search over event histories on the real API object, StubsStringGenerator and output directory (every history replayed on a deepcopy of the pristine model, states hashed on a canonical form), plus repeated console-script runs",
+    "Part A: events {generate module i, create re-export strings, generate_stub_data, create_stub_files, new generator}; all histories up to length 3 (quick) / 4 (thorough) on 3 inputs built around the aliasing the anchors name (literal|None parameters inherited by several subclasses, *args, aliased re-exports to shorter paths, foreign classes, generics, TODO-raising declarations) x naming conversion off/on. After every event the model's to_dict() equals the pristine one, every module generation and generate_stub_data returns what it returns on a pristine copy, D;F leaves the single-run directory, inherited methods render identically in every subclass. Part B: the console script twice into one directory with mypy's cache left in place, and into a directory already holding other packages' output.",
+    "Generator scratch state is read from the harness; re-export strings (R) are exempt from history independence by design; duplicate identical entries in generate_stub_data's list are tolerated.",
+    "6/C16",
+)
 NOT_YET = {}  # id -> reason (filled for properties without a check)
 
 props = [json.loads(l) for l in open(V / "properties.jsonl")]
